@@ -65,6 +65,12 @@ ContentSrc(def) ==
   IF def.k = "doc" THEN Src(def) \o <<Line("hdr", "", HdrRaw, ""), Line("lit", "", "", "")>>
   ELSE Src(def)
 
+\* an operation as handed to the executor: load calls carry the concrete source lines
+Conc(op) == IF op.op = "Load"
+            THEN [op |-> "Load", n |-> op.n, def |-> op.def,
+                  src |-> [i \in 1..Len(Src(op.def)) |-> Src(op.def)[i].raw]]
+            ELSE op
+
 \* ---- values ---------------------------------------------------------------
 RECURSIVE RootOf(_)
 RootOf(v) == IF v.parent.id = 0 THEN v ELSE RootOf(v.parent)
@@ -162,6 +168,10 @@ RenderRet(s, op) == PureRender(Lookup(s.cache, op.n), op.data, op.e)
 Shows(s, N, d) == [n \in N |-> [doc |-> PureRender(Lookup(s.cache, n), d, "doc"),
                                  tpl |-> PureRender(Lookup(s.cache, n), d, "tpl")]]
 CacheIds(s, N) == [n \in N |-> Lookup(s.cache, n).id]
+
+\* names and data the executors observe with after every step / run
+NamePool == {"base", "A", "B", "G"}
+ProbeData == [v |-> "val1", items |-> <<"n1", "n2">>, c |-> TRUE]
 
 \* ---- witness sets ------------------------------------------------------------
 \* class of a value by its depth in the inheritance chain
